@@ -87,11 +87,15 @@ def expected_keys(model, obj):
 
 def object_texts(model):
     """schema / query / payload / expected keys for a model of kernels.k_object_selection (parent = the object type o0)"""
+    import re as _re
     ON = model.get('obj_names') or ['O0', 'O1']
     impl = model['implements']
+    deprecated = model.get('deprecated') or []
+    deny = model.get('strategy') == 'Deny'
+    dep = lambda n: ' @deprecated(reason: "why")' if n in deprecated else ''
     lines = ['schema { query: Query }', f'type Query {{ n: {ON[0]} }}', 'interface I0 { leaf: Int g1: Int g2: Int }']
-    for o in range(2):
-        lines.append(f'type {ON[o]}{" implements I0" if impl[o] else ""} {{ leaf: Int g1: Int g2: Int f1: Int f2: Int }}')
+    lines.append(f'type {ON[0]}{" implements I0" if impl[0] else ""} {{ leaf: Int{dep("leaf")} g1: Int g2: Int f1: Int f2: Int sub: {ON[1]}{dep("sub")} }}')
+    lines.append(f'type {ON[1]}{" implements I0" if impl[1] else ""} {{ leaf: Int g1: Int g2: Int f1: Int f2: Int }}')
     lines.append(f'union U0 = {ON[0]} | {ON[1]}')
     schema = '\n'.join(lines) + '\n'
     frags, keys = [], set()
@@ -99,18 +103,21 @@ def object_texts(model):
         on = model[f'F{k}_on']
         body = f'f{k}' if on == ON[0] else (f'__typename g{k}' if on == 'I0' else '__typename')
         frags.append(f'fragment F{k} on {on} {{ {body} }}')
-    import re as _re
     text = ' '.join(model['selections'])
     for s_ in model['selections']:
         if s_ == '__typename':
             keys.add('__typename')
+        elif s_.startswith('sub'):
+            if not (deny and 'sub' in deprecated):
+                keys.add('sub')
         elif s_ == 'leaf' or (s_.startswith('... on') and 'leaf' in s_):
-            keys.add('leaf')
+            if not (deny and 'leaf' in deprecated):
+                keys.add('leaf')
     for k in (1, 2):
         if _re.search(rf'\.\.\.F{k}\b', text):
             on = model[f'F{k}_on']
             keys |= {f'f{k}'} if on == ON[0] else ({'__typename', f'g{k}'} if on == 'I0' else {'__typename'})
     used = [f for f, k in zip(frags, (1, 2)) if _re.search(rf'\.\.\.F{k}\b', text)]
     query = 'query Q { n { ' + text + ' } }\n' + '\n'.join(used) + '\n'
-    payload = {'n': {'__typename': ON[0], 'leaf': 1, 'g1': 4, 'g2': 5, 'f1': 2, 'f2': 3}}
+    payload = {'n': {'__typename': ON[0], 'leaf': 1, 'g1': 4, 'g2': 5, 'f1': 2, 'f2': 3, 'sub': {'leaf': 9}}}
     return schema, query, payload, keys
